@@ -689,7 +689,8 @@ class Scalar(Qube):
                 try:
                     exp_values = np.exp(no_oflow._values_)
                 except RuntimeWarning:
-                    raise ValueError('Scalar.exp() overflow encountered')
+                    exp_values = self._func_of_unmasked(np.exp, 0.,
+                                        'Scalar.exp() overflow encountered')
 
         obj = Scalar(exp_values, mask=no_oflow._mask_)
 
